@@ -308,6 +308,7 @@ META_EXTRA = 'NULFREE; EXIT; pointer-formation obligations and counting-loop rea
 META = (META[0] + " " + META_EXTRA, META[1])
 META = (META[0] + ' SIB; IT4i; RESUME (pattern searches, including etl::search / etl::find_end, move their candidate by one).', META[1])
 META = (META[0] + " RWINDOW (rfind's prologue evaluated over (pos, n, size) models: the prefix handed to the backward scan); PTRCOUNT over char_traits.", META[1])
+META = (META[0] + ' IDXLOOP; FWINDOW (forward pointer scans end at data() + size()).', META[1])
 
 
 def run(chk, tier):
